@@ -23,7 +23,7 @@ Texts == {[tf |-> [a |-> 1], len |-> 1], [tf |-> [a |-> 1, b |-> 2], len |-> 3],
 All == [k |-> "all"]
 
 VARIABLE pts
-Fld(p, v) == [c |-> "x", ix |-> [q \in {p} |-> v], d |-> 0, sz |-> 0]
+Fld(p, v) == [c |-> "x", ix |-> [q \in {p} |-> v], d |-> 0, sz |-> 0, bad |-> 0]
 Init == \E have \in [Ids -> BOOLEAN], vv \in [Ids -> Vals], tt \in [Ids -> Texts] :
           pts = [k \in Ids |-> IF have[k] THEN [v |-> Fld("v", vv[k]), t |-> Fld("t", tt[k])] ELSE <<>>]
 Next == UNCHANGED pts
